@@ -42,6 +42,10 @@ func init() {
 				workersSignal("couchbase.cbMembership).monitor")(c, id)
 			}},
 			{ID: "C10.R19", Text: "Couchbase membership, the instance document is written by the ladder update | update(key not found) → create → create(ok) → update, each step under exactly its condition, the last step's error deciding", Run: registerLadder},
+			{ID: "C10.R20", Text: "leader-assigned numbering, one monitor round (0..2 followers, exhaustive): a member that is not the leader assigns nothing; the leader announces (1, n+1) for itself and tells the follower at position i of the join-ordered list (i+2, n+1) through that follower's own client, each exactly once", Run: leaderMonitorRound},
+			{ID: "C10.R21", Text: "leader-assigned numbering, one heart-beat round (0..2 followers, exhaustive over the outcomes of every ping/reconnect/register): a leader that answers is left alone, a silent one is re-contacted and forgotten (closed, cleared) only when that fails too; every follower is pinged once and removed ⇔ its ping failed", Run: leaderHeartbeatRound},
+			{ID: "C10.R22", Text: "leader-assigned numbering, role changes: elected ⇒ leader flag up and old leader forgotten; resigned ⇒ flag down and followers dropped; following ⇒ step down, drop followers and old leader, connect to the new leader with the configured port and both identities, record it and register (failure fatal) — an unreachable leader is not recorded; the flag setters, AssignLeader/RemoveLeader and Remove/RemoveAll do exactly that (exhaustive)", Run: leaderRoles},
+			{ID: "C10.R23", Text: "leader-assigned numbering, the RPC table: every client call names a constant Handler.M that *Handler has, with exactly the payload and reply types sent; Rebalance carries the caller's member number and group size, Register this member's identity; the handler announces exactly the payload's numbers and registers a follower ⇔ the connection back to it succeeded, with its own name and join time", Run: rpcAgreement},
 			{ID: "C10.R5", Text: "Couchbase membership: lastActiveInstances is written only in the numbering step after the publish decision; on CAS mismatch the round is restarted (monitor re-entered), nothing is rewritten", Run: c10r5},
 		},
 	})
